@@ -227,13 +227,13 @@ static void doDstu(const vx_cmd* c)
 			size_t hl2 = hl, ld2 = ld; octet* h2 = (octet*)xalloc(hl + 8); octet* s2 = (octet*)xalloc(ld / 8 + 64); octet* q2 = (octet*)xalloc(2 * no);
 			int ok = 0; err_t rc; octet* nle = (octet*)xalloc(half + 1);
 			memcpy(h2, hash, hl); memcpy(s2, sig, ld / 8); memcpy(q2, pub, 2 * no); memcpy(nle, P->n, ono < half ? ono : half);
-			if (tok[0] == 'r') ok = numAlt(s2, half, nle, tok + 1);
-			else if (tok[0] == 's') ok = numAlt(s2 + half, half, nle, tok + 1);
-			else if (strcmp(tok, "rpad") == 0 || strcmp(tok, "spad") == 0)
+			if (strcmp(tok, "rpad") == 0 || strcmp(tok, "spad") == 0)
 			{
 				/* a non-zero octet in the padding of the component (possible when ld / 16 exceeds the length of the order) */
 				if (half > ono) { s2[(tok[0] == 's' ? half : 0) + half - 1] = 1; ok = 1; }
 			}
+			else if (tok[0] == 'r') ok = numAlt(s2, half, nle, tok + 1);
+			else if (tok[0] == 's') ok = numAlt(s2 + half, half, nle, tok + 1);
 			else if (tok[0] == 'h' && tok[1] == '^') { size_t b = (size_t)strtoul(tok + 2, 0, 10); if (b < 8 * hl) h2[b / 8] ^= (octet)(1 << (b % 8)), ok = 1; }
 			else if (strcmp(tok, "h=0") == 0) { memset(h2, 0, hl); ok = 1; }
 			else if (strcmp(tok, "h=1") == 0) { memset(h2, 0, hl); if (hl) h2[0] = 1, ok = 1; }
